@@ -334,6 +334,8 @@ func buildItems(tierName string, seed int64) []Item {
 	}
 	// 8. pipes of exactly 254 / 255 filters: protocol object alone and end to end (limit.go)
 	limitItems(add)
+	// 9. the filter registry against its model (registry.go)
+	registryItems(add, thorough)
 	return items
 }
 
@@ -490,7 +492,7 @@ func runAppend(it Item) {
 		core.Distinct("nontrivial", "append/limit")
 	case "unregistered":
 		for id := 0; id < 256; id++ {
-			if bytes.IndexByte(regIDs, byte(id)) >= 0 {
+			if bytes.IndexByte(regIDs, byte(id)) >= 0 || registeredByHarness(byte(id)) {
 				continue
 			}
 			core.Add("evaluations", 3)
@@ -966,9 +968,14 @@ func scriptFrame(p protos.P, route string, pipe []byte, tk string, bad int, pos 
 	return f, nil
 }
 
+func protoRaw() protos.P { return protos.ByName("raw") }
+
 func runScript(it Item) {
 	id := fmt.Sprintf("i%05d", it.Idx)
 	p := protos.ByName(it.Proto)
+	if it.Scn == "unregistered" && !p.HTTP && registeredByHarness(byte(it.BadID)) {
+		return // the registry part of this process has registered that id meanwhile
+	}
 	desc := map[string]interface{}{"class": it.Class, "item": it, "rerun": map[string]interface{}{"idx": it.Idx, "seed": *seed, "tier": *tier}}
 	core.Begin(id, desc)
 	pb := erpc.NewPeer(erpc.PeerConfig{})
@@ -1087,6 +1094,8 @@ func main() {
 			runStreamLimit(it, r)
 		case "e2e-limit":
 			runLimitE2E(it, r)
+		case "registry":
+			runRegistry(it, r)
 		}
 	}
 	core.Finish()
